@@ -23,11 +23,11 @@ namespace IceProofs.C01Live
 open IceModel.AgentCore
 
 @[simp] theorem tf_mk (cfg tieBreaker controlling started closed connState localUfrag localPwd remoteUfrag remotePwd
-    locals remotes checklist nextPairID nextUid nextTid tag pending selected selStart nominatedPair lastNomination
+    locals remotes checklist nextPairID nextUid nextTid tag pending selected selStart nominatedPair lastNomination answeredNomination
     lastSeen checkingStart checkingTimeout forcePending nextTick caches rx connBytesSent connBytesRecv
     onConnectedFired generation nomIssued) :
     (Agent.mk cfg tieBreaker controlling started closed connState localUfrag localPwd remoteUfrag remotePwd
-    locals remotes checklist nextPairID nextUid nextTid tag pending selected selStart nominatedPair lastNomination
+    locals remotes checklist nextPairID nextUid nextTid tag pending selected selStart nominatedPair lastNomination answeredNomination
     lastSeen checkingStart checkingTimeout forcePending nextTick caches rx connBytesSent connBytesRecv
     onConnectedFired generation nomIssued).tf = ⟨nextTick, checkingTimeout, checkingStart, lastSeen⟩ := rfl
 
@@ -160,7 +160,7 @@ open IceProofs.C03 in
     · simp
     · split
       · split <;> simp
-      · simp
+      · split <;> simp
   · rfl
 
 open IceProofs.C03 in
